@@ -99,8 +99,24 @@
        point; contributions + open box volumes at the current height = exclusive volume below that height (C13_contrib3d_
        step_invariant).  contrib_spec in dimension 3 = number of exclusively dominated unit cells: C13_contrib_spec_cells.
        Modelled, not verified: -inf of the sentinels is any value below all coordinates; Box::upper.f3 is dead data.
+     * the contribution front end HypervolumeContribution with reference point (C13ContribNoref.v: 2 objectives -> 2-D
+       algorithm, 3 -> 3-D sweep, otherwise MD): the list of all (contribution, index) entries is a permutation of
+       (contrib_spec i, i), and smallest / largest return k distinct indices with their contributions, the values being
+       the k smallest / largest contributions (C13_contrib_front_correct, C13_contrib_front_smallest / _largest) -- for
+       >= 2 objectives except 4 (for 4 given HOY = hv_spec), mutually non-dominated sets in 2 and 3 objectives, any set in
+       more objectives.
+     * the overloads WITHOUT reference point as repaired (model noref_front: implicit reference point = component-wise
+       maximum; 2-D: candidates = all but the first and last lexicographically sorted point, bestContributors on
+       min(k, candidates), appendExtremePoints; 3-D: first minimiser of each objective moved from the sorted result to the
+       list of extremes, first k / last k reversed, extremes appended while fewer than k; MD: entries of the non-extreme
+       indices sorted by (contribution, index), selection, the distinct extreme indices appended in increasing order):
+       for EVERY 1 <= k <= n the result has exactly k entries with distinct indices, and every entry (v, i) carries
+       v = contrib_spec (implicit reference point) S i (C13_noref_front_correct; per algorithm C13_noref2d_correct,
+       C13_noref3d_correct, C13_norefmd_correct; shape: C13_noref2d_shape = selection from the interior entries followed
+       by the extreme entries; the 2-D code's implicit reference point (first objective of the last sorted point, maximal
+       second objective) is the component-wise maximum: C13_noref2d_implicit_reference).
    NOT PROVED, only compared on every run (tools/c13.py, exact integer arithmetic):
-     * the contribution front end, HOY, contributions and subset selection WITHOUT reference
+     * HOY, subset selection WITHOUT reference
        point: differential test of the C++ against hv_spec / contrib_spec (extracted) and against an
        independent Python monitor.
      * DC sort for fewer than 2 objectives: the code reads obj[-1] (ndHelperB with k = 0); outside the property's range. *)
@@ -110,7 +126,7 @@ From SharkV Require Import C13Wfg C13WfgProofs C13Sweep3d C13Sweep3dProofs.
 From SharkV Require Import C13ContribMd C13Contrib3d C13Contrib3dBoxProofs C13Contrib3dSpecProofs C13Contrib3dStepProofs C13Contrib3dInvProofs C13Contrib3dProofs.
 From SharkV Require Import C13Hssp C13HsspEnvProofs C13HsspProofs C13HsspFrontProofs C13Disp C13DispProofs.
 From SharkV Require Import C13Dc C13DcAuxProofs C13DcSweepProofs C13DcProofs.
-From SharkV Require Import C13ContribMd C13ContribMdProofs.
+From SharkV Require Import C13ContribMd C13ContribMdProofs C13ContribNoref C13ContribNorefProofs.
 Import ListNotations.
 
 (* ---- dominance *)
@@ -674,3 +690,88 @@ Theorem C13_contrib3d_example :
   contrib3d_largest ref S 2 = [(7%Z, 0); (5%Z, 5)].
 Proof. exact contrib3d_example. Qed.
 Print Assumptions C13_contrib3d_example.
+
+(* ---- front end HypervolumeContribution.h with reference point *)
+Theorem C13_contrib_front_correct :
+  forall hoy ref S, 2 <= length ref -> hoy_ok hoy ref -> below_ref ref S ->
+    (length ref <= 3 -> mutually_nondominated S) ->
+    Permutation (contribs_front hoy ref S) (combine (contribs_spec ref S) (seq 0 (length S))).
+Proof. exact contribs_front_correct. Qed.
+Print Assumptions C13_contrib_front_correct.
+
+Theorem C13_contrib_front_smallest :
+  forall hoy ref S k, 2 <= length ref -> hoy_ok hoy ref -> below_ref ref S ->
+    (length ref <= 3 -> mutually_nondominated S) -> k <= length S ->
+    let res := contrib_front_smallest hoy ref S k in
+    map fst res = smallest_k k (contribs_spec ref S) /\ length res = k /\ NoDup (map snd res) /\
+    forall v i, In (v, i) res -> i < length S /\ v = contrib_spec ref S i.
+Proof. exact contrib_front_smallest_correct. Qed.
+Print Assumptions C13_contrib_front_smallest.
+
+Theorem C13_contrib_front_largest :
+  forall hoy ref S k, 2 <= length ref -> hoy_ok hoy ref -> below_ref ref S ->
+    (length ref <= 3 -> mutually_nondominated S) -> k <= length S ->
+    let res := contrib_front_largest hoy ref S k in
+    map fst res = largest_k k (contribs_spec ref S) /\ length res = k /\ NoDup (map snd res) /\
+    forall v i, In (v, i) res -> i < length S /\ v = contrib_spec ref S i.
+Proof. exact contrib_front_largest_correct. Qed.
+Print Assumptions C13_contrib_front_largest.
+
+(* ---- overloads WITHOUT reference point (implicit reference point, extreme points appended last) *)
+Theorem C13_noref_front_correct :
+  forall hoy largest S k d, S <> [] -> same_dim d S -> 2 <= d ->
+    (d <> 4 \/ forall ref S, length ref = 4 -> below_ref ref S -> hoy ref S = hv_spec ref S) ->
+    (d <= 3 -> mutually_nondominated S) -> k <= length S ->
+    length (noref_front hoy largest S k) = k /\ NoDup (map snd (noref_front hoy largest S k)) /\
+    forall v i, In (v, i) (noref_front hoy largest S k) ->
+      i < length S /\ v = contrib_spec (implicit_ref S) S i.
+Proof. exact noref_front_correct. Qed.
+Print Assumptions C13_noref_front_correct.
+
+Theorem C13_noref2d_correct :
+  forall largest S k, S <> [] -> same_dim 2 S -> mutually_nondominated S -> k <= length S ->
+    noref_ok (implicit_ref S) S k (noref2d largest S k).
+Proof. exact noref2d_correct. Qed.
+Print Assumptions C13_noref2d_correct.
+
+Theorem C13_noref3d_correct :
+  forall largest S k, S <> [] -> same_dim 3 S -> mutually_nondominated S -> k <= length S ->
+    noref_ok (implicit_ref S) S k (noref3d largest S k).
+Proof. exact noref3d_correct. Qed.
+Print Assumptions C13_noref3d_correct.
+
+Theorem C13_norefmd_correct :
+  forall hoy largest S k d, S <> [] -> same_dim d S -> 2 <= d ->
+    (d <> 4 \/ forall ref S, length ref = 4 -> below_ref ref S -> hoy ref S = hv_spec ref S) -> k <= length S ->
+    noref_ok (implicit_ref S) S k (norefmd hoy largest S k).
+Proof. exact norefmd_correct. Qed.
+Print Assumptions C13_norefmd_correct.
+
+Theorem C13_noref2d_shape :
+  forall largest S k,
+    noref2d largest S k =
+    select_rest largest (sort_kv (interior2d S)) k ++
+    firstn (k - length (select_rest largest (sort_kv (interior2d S)) k)) (extremes2d S).
+Proof. exact noref2d_sel_append. Qed.
+Print Assumptions C13_noref2d_shape.
+
+Theorem C13_noref2d_implicit_reference :
+  forall S, S <> [] -> same_dim 2 S -> ref2d_of (sort_lex (indexed S)) = implicit_ref S.
+Proof. exact ref2d_is_implicit. Qed.
+Print Assumptions C13_noref2d_implicit_reference.
+
+Theorem C13_implicit_reference_is_weakly_dominated :
+  forall d S, S <> [] -> same_dim d S -> length (implicit_ref S) = d /\ below_ref (implicit_ref S) S.
+Proof. exact implicit_ref_spec. Qed.
+Print Assumptions C13_implicit_reference_is_weakly_dominated.
+
+Theorem C13_noref_example :
+  let S := [[1; 5; 2]; [2; 3; 3]; [2; 3; 3]; [3; 1; 5]; [1; 4; 5]; [2; 2; 4]]%Z in
+  let S2 := [[1; 5]; [2; 3]; [4; 2]; [2; 3]; [5; 1]]%Z in
+  same_dim 3 S /\ mutually_nondominated S /\ implicit_ref S = [3; 5; 5]%Z /\
+  noref_front (fun _ _ => 0%Z) false S 5 = [(0%Z, 4); (0%Z, 1); (0%Z, 2); (1%Z, 5); (0%Z, 0)] /\
+  noref_front (fun _ _ => 0%Z) true S 2 = [(1%Z, 5); (0%Z, 2)] /\
+  same_dim 2 S2 /\ mutually_nondominated S2 /\ implicit_ref S2 = [5; 5]%Z /\
+  noref_front (fun _ _ => 0%Z) false S2 5 = [(0%Z, 3); (0%Z, 1); (1%Z, 2); (0%Z, 0); (0%Z, 4)].
+Proof. exact noref_example. Qed.
+Print Assumptions C13_noref_example.
